@@ -37,6 +37,19 @@ type T2 struct {
 	Ok   bool
 }
 
+// T3 carries methods (value and pointer receivers, fixed and variadic); opaque to the model
+type T3 struct {
+	Pre string
+	N   int
+}
+
+func (t T3) Tag(p string, n int) string { return fmt.Sprintf("%s:%s:%d", t.Pre, p, n+t.N) }
+func (t *T3) PTag(p string) string      { return "*" + t.Pre + ":" + p }
+func (t T3) Cat(xs ...string) string    { return t.Pre + "(" + strings.Join(xs, ",") + ")" }
+func (t T3) Mix(a int, xs ...interface{}) string {
+	return fmt.Sprint(append([]interface{}{t.Pre, a}, xs...)...)
+}
+
 // decodeVal turns the s-expression form of a value (the model's `Val`) into a Go value.
 func decodeVal(x *sx.Sexp) interface{} {
 	if x.K != sx.List || len(x.Xs) == 0 {
@@ -143,6 +156,8 @@ func decodeVal(x *sx.Sexp) interface{} {
 			}
 			t.I = decodeVal(f["I"])
 			return t
+		case "T3":
+			return T3{Pre: decodeVal(f["Pre"]).(string), N: decodeVal(f["N"]).(int)}
 		case "T2":
 			return T2{Name: decodeVal(f["Name"]).(string), N: decodeVal(f["N"]).(float64), Ok: decodeVal(f["Ok"]).(bool)}
 		}
@@ -162,6 +177,8 @@ func decodeVal(x *sx.Sexp) interface{} {
 		case T1:
 			return &t
 		case T2:
+			return &t
+		case T3:
 			return &t
 		case int:
 			return &t
@@ -194,6 +211,24 @@ var funcRegistry = map[string]interface{}{
 	"add3":   func(a, b, c int) int { return a + b + c },
 	"cat":    func(a string, rest ...string) string { return a + strings.Join(rest, "") },
 	"ident":  func(v interface{}) interface{} { return v },
+	"sum": func(xs ...int) int {
+		t := 0
+		for _, x := range xs {
+			t += x
+		}
+		return t
+	},
+	"joinv": func(sep string, xs ...interface{}) string {
+		ps := make([]string, len(xs))
+		for i, x := range xs {
+			ps[i] = fmt.Sprint(x)
+		}
+		return strings.Join(ps, sep)
+	},
+	"stage": func(id int, s string) string {
+		probeLog = append(probeLog, fmt.Sprintf("(probe %d)", id))
+		return s + strconv.Itoa(id)
+	},
 	"rec": jet.Func(func(a jet.Arguments) reflect.Value {
 		n := a.NumOfArguments()
 		probeLog = append(probeLog, fmt.Sprintf("(call rec %d)", n))
@@ -396,6 +431,13 @@ func prepareExec(cmd *sx.Sexp, files map[string]string) *preparedExec {
 // run executes the entry template once and returns the observation and the direct-oracle verdict
 func (pe *preparedExec) run(cmd, meta *sx.Sexp) (*sx.Sexp, string) {
 	if pe.t == nil {
+		if meta != nil {
+			for _, f := range meta.Xs[1:] {
+				if string(f.Xs[0].B) == "\x00expect" {
+					return sx.L(sx.A("parse-error")), "a program the generator built to be valid did not parse"
+				}
+			}
+		}
 		return sx.L(sx.A("parse-error")), ""
 	}
 	t := pe.t
@@ -444,6 +486,13 @@ func checkExpectation(meta *sx.Sexp, out []byte, xerr error) string {
 			exp, _ = sx.Parse(string(f.Xs[1].B))
 		}
 	}
+	for _, f := range meta.Xs[1:] {
+		if string(f.Xs[0].B) == "\x00expectlog" {
+			if got := logSexp().String(); got != string(f.Xs[1].B) && xerr == nil {
+				return fmt.Sprintf("call log: got %s want %s (each stage exactly once, left to right)", clipS(got), f.Xs[1].B)
+			}
+		}
+	}
 	if exp == nil {
 		return ""
 	}
@@ -479,6 +528,17 @@ func checkExpectation(meta *sx.Sexp, out []byte, xerr error) string {
 		return fmt.Sprintf("output: got %q want %q", clipS(string(out)), clipS(want))
 	}
 	return ""
+}
+
+// printed pointer values differ from run to run
+var addrText = regexp.MustCompile(`0xc000[0-9a-f]{3,8}`)
+
+func withExpect(c h.Case, want string, log *sx.Sexp) h.Case {
+	c.Meta.Add(sx.L(sx.S("\x00expect"), sx.S(sx.L(sx.A("expect"), sx.S(want)).String())))
+	if log != nil {
+		c.Meta.Add(sx.L(sx.S("\x00expectlog"), sx.S(log.String())))
+	}
+	return c
 }
 
 func clipS(s string) string {
